@@ -411,13 +411,19 @@ def run_saw(desc, c, e, add, rng):
     kw = dict(e.kwargs(c.ctx), X=c.X.copy(), y=Y.copy(), batch_size=bs, n_annotators_per_sample=nps, return_utilities=True)
     # annotator performances only rank the annotators of a sample; whatever their scale (incl. exact 0 / 1 entries of a
     # binary expertise matrix) they must not reorder the samples
-    aperf = [None, "vec", "mat", "binary", "binary"][rng.randint(5)]
+    aperf = [None, "vec", "mat", "binary", "binary", "wide", "uint8"][rng.randint(7)]
     if aperf == "vec":
         kw["A_perf"] = np.round(rng.rand(A), 2)
     elif aperf == "mat":
         kw["A_perf"] = np.round(rng.rand(c.n, A) * rng.choice([1.0, 10.0]), 2)
     elif aperf == "binary":
         kw["A_perf"] = (rng.rand(c.n, A) < 0.5).astype(float)
+    elif aperf == "wide":
+        kw["A_perf"] = np.round(rng.rand(c.n, A) * 1e6)
+        kw["A_perf"].flat[0], kw["A_perf"].flat[-1] = 0.0, 1e6
+    elif aperf == "uint8":
+        kw["A_perf"] = rng.randint(0, 256, size=A).astype(np.uint8)
+        kw["A_perf"][0], kw["A_perf"][-1] = 0, 255
     steps.begin()
     try:
         out = qs.query(**kw)
